@@ -11,6 +11,17 @@ CLAIMED = {
          "tlsx is mirrored, not verified; MD5 is a parameter; crypto/tls acceptance assumed to imply well-formedness"),
    technique="Lean 4 theorem over regenerated table + model/implementation differential with spec oracle",
    design='7/C01'),
+ 'C02': dict(
+   text=("Proof (Lean 4): JA4 is invariant under every permutation of the cipher list and of the extension list (ja4_perm; sort "
+         "uniqueness, commutative version maximum) and under GREASE values added to ciphers, extensions, supported_versions and "
+         "signature_algorithms (grease_*), has the form a_b_c with saturating two-digit counts (ja4_form, count_saturates), for any "
+         "truncated hash T; tables/format facts regenerated from pkg/ja4; model of utls FromRaw + pkg/ja4 tied to the code by an "
+         "exact differential, spec oracle over structured hellos"),
+   note=("Trusted: Lean kernel + standard axioms; translator; harness. utls v1.6.0 is mirrored for the generic walk and the five "
+         "extension bodies JA4 reads; bodies of other utls-validated types are opaque (model answers conditionally; finding D10 "
+         "boundary). SHA-256 is a parameter. Found and fixed D11 (fix: commit e6ff494)"),
+   technique="Lean 4 invariance theorems (permutation, GREASE) + differential with spec oracle",
+   design='7/C02'),
  'C03': dict(
    text=("Proof (Lean 4): for every history of delivered frames and every limit n, Marshal applied to what the capture blocks of "
          "processFrame accumulate equals the specification S|WU|P|PS (latest non-ACK SETTINGS, first WINDOW_UPDATE, all priorities "
